@@ -564,6 +564,8 @@ var WebKeyNames = map[string]Key{
 	"Center":     KeyCenter,
 	"PgDn":       KeyPgDn,
 	"PgUp":       KeyPgUp,
+	"PageDown":   KeyPgDn, // KeyboardEvent.key value
+	"PageUp":     KeyPgUp, // KeyboardEvent.key value
 	"Clear":      KeyClear,
 	"Exit":       KeyExit,
 	"Cancel":     KeyCancel,
